@@ -59,7 +59,25 @@ def run_shard(pid, tier, seed, i, n, partial):
     return 0
 
 
+def hashseed_for(seed, tier, shard_i):
+    """The interpreter's hash seed is part of the workload: kernpy keeps category and header selections in sets, so the order in
+    which a set is walked is an input like any other.  It is a function of (seed, tier, shard): quick = the seed itself (seed 0 ->
+    0), thorough = a different value for every shard.  Recorded in evidence and replay files; --replay re-creates it."""
+    if tier == 'quick':
+        return seed % 4294967295
+    return (seed * 1000 + 17 * shard_i + 1) % 4294967295
+
+
+def ensure_hashseed(want, argv):
+    if os.environ.get('PYTHONHASHSEED') == str(want) or os.environ.get('KPVERIF_NO_REEXEC'):
+        return
+    env = dict(os.environ, PYTHONHASHSEED=str(want))
+    sys.stdout.flush()
+    os.execve(sys.executable, [sys.executable, '-m', 'kpverif.runner'] + list(argv), env)
+
+
 def main(argv=None):
+    argv = list(sys.argv[1:] if argv is None else argv)
     ap = argparse.ArgumentParser()
     ap.add_argument('pid')
     ap.add_argument('--tier', default=os.environ.get('VERIF_TIER', 'quick'))
@@ -75,16 +93,20 @@ def main(argv=None):
     mod = load_check(pid)
 
     if args.replay:
+        data = json.loads(Path(args.replay).read_text(encoding='utf-8'))
+        if data.get('hashseed') is not None:
+            ensure_hashseed(int(data['hashseed']), argv)
         ctx = Ctx(pid, tier, seed, replay=True)
         assert_repo_import(ctx)
-        data = json.loads(Path(args.replay).read_text(encoding='utf-8'))
         for w in data.get('witnesses', []):
             mod.replay(ctx, w)
         return ctx.finish()
 
     if args.shard:
         i, n = (int(x) for x in args.shard.split('/'))
+        ensure_hashseed(hashseed_for(seed, tier, i), argv)
         return run_shard(pid, tier, seed, i, n, args.partial)
+    ensure_hashseed(hashseed_for(seed, tier, 0), argv)
 
     nshards = args.shards or getattr(mod, 'SHARDS', {}).get(tier, 1)
     ctx = Ctx(pid, tier, seed)
@@ -131,6 +153,7 @@ def main(argv=None):
         else:
             ctx.merge_partial(data)
     ctx.extra['shards'] = nshards
+    ctx.extra['shard_hashseeds'] = [hashseed_for(seed, tier, i) for i in range(nshards)]
     if hasattr(mod, 'post_merge'):
         mod.post_merge(ctx)
     return ctx.finish()
